@@ -47,20 +47,25 @@ Proof. split; reflexivity. Qed.
    object, reopen returns a NEW descriptor open on the SAME object, and the descriptor table
    afterwards is the old one plus exactly that descriptor -- every procfs descriptor used on
    the way (thread-self directory, fd directory, the magic-link) is closed again.
-   (Procfs handle resolving with openat2; premises after the handle's are properties of
-   the tree alone.) *)
+   (With openat2, and without it -- every procfs step then goes through the emulated procfs
+   resolver.  Premises after the handle's are properties of the tree alone.) *)
 From PV Require Static StaticProofs StaticProcfs StaticReopen.
 
 Theorem C09_reopen_same_object :
-  forall s rp fz gh pf t fd o exp flags,
-    fz <> 0%nat -> ph_mnt gh = Some Static.PROC_MNT -> ph_openat2 gh = true ->
+  (* [o2]: is openat2 available?  The procfs handle resolves with it exactly when it is. *)
+  forall s rp fz gh o2 pf t fd o exp flags,
+    fz <> 0%nat -> ph_mnt gh = Some Static.PROC_MNT -> ph_openat2 gh = o2 ->
     Static.tget t (ph_fd gh) = Some (Static.PB s) ->
     Static.tget t fd = Some o -> (o < Static.PB s)%nat -> FSModel.link_body s o = None ->
     Static.find_path s o = Some exp -> N.leb READLINK_BUF (N.of_nat (length (Static.render rp exp))) = false ->
     (intersects (without flags REOPEN_REMOVED) OPEN_FOLLOW_REFUSED || has_nz (without flags REOPEN_REMOVED) OPEN_FOLLOW_REFUSED_CONTAINS) = false ->
     (has (N.lor (N.lor (without flags REOPEN_REMOVED) OPENAT_FORCED) O_LARGEFILE) O_DIRECTORY && negb (Static.obj_is_dir s o)) = false ->
-    exists nfd, Static.run s rp t (reopen fz true (S pf) gh fd flags) = Static.Done ((nfd, o) :: t) (Ok nfd).
-Proof. intros s rp fz gh pf t fd o exp flags Hfz Hmnt Ho2. exact (StaticReopen.run_reopen s rp fz Hfz gh Hmnt Ho2 pf t fd o exp flags). Qed.
+    exists nfd, Static.run s rp t (reopen fz o2 (S pf) gh fd flags) = Static.Done ((nfd, o) :: t) (Ok nfd).
+Proof.
+  intros s rp fz gh o2 pf t fd o exp flags Hfz Hmnt Ho2. destruct o2.
+  - exact (StaticReopen.run_reopen s rp fz Hfz gh Hmnt Ho2 pf t fd o exp flags).
+  - exact (StaticReopen.run_reopen_emu s rp fz Hfz gh Hmnt Ho2 pf t fd o exp flags).
+Qed.
 
 (* executed: a handle on a/b/f at descriptor 7 is reopened O_RDONLY and O_WRONLY|O_APPEND;
    a handle on the directory a/b with O_DIRECTORY; O_CREAT is refused *)
@@ -74,7 +79,10 @@ Example C09_reopen_runs :
                           | _ => (None, 0%nat) end in
   outcome 7%Z O_RDONLY = (Some 3%nat, 4%nat) /\ outcome 7%Z (N.lor O_WRONLY O_APPEND) = (Some 3%nat, 4%nat) /\
   outcome 6%Z (N.lor O_RDONLY O_DIRECTORY) = (Some 2%nat, 4%nat) /\ outcome 7%Z (N.lor O_RDONLY O_DIRECTORY) = (None, 3%nat) /\
-  outcome 7%Z (N.lor O_WRONLY O_CREAT) = (None, 3%nat).
+  outcome 7%Z (N.lor O_WRONLY O_CREAT) = (None, 3%nat) /\
+  (* the same without openat2 *)
+  (match Static.run s (b "/srv/root") t (reopen 1 false 2 {| ph_fd := 4; ph_mnt := Some Static.PROC_MNT; ph_subset := false; ph_openat2 := false |} 7 O_RDONLY) with
+   | Static.Done t' (Ok nfd) => (Static.tget t' nfd, length t') | _ => (None, 0%nat) end) = (Some 3%nat, 4%nat).
 Proof. vm_compute. repeat split. Qed.
 
 Print Assumptions C09_creat_refused.
